@@ -276,6 +276,18 @@ def run_guard(funcs, o, tier):
     rec = dict(o); rec.pop("spec", None); rec["spec"] = o["id"]; rec["native"] = spec.get("native")
     t0 = time.time()
     req = BVX.variant_const(spec["required"][0], spec["required"][1])
+    req_index = None
+    if spec.get("subject_result"):
+        # the tolerated error variant is compared through its numeric discriminant: read the
+        # variant order from the enum's declaration
+        try:
+            src = open(os.path.join(REPO, spec["required"][2])).read()
+            body = re.search(r"pub enum %s\s*\{(.*?)\n\}" % spec["required"][0].split("::")[-1], src, re.S).group(1)
+            variants = re.findall(r"^    ([A-Z]\w*)", body, re.M)
+            req_index = variants.index(spec["required"][1])
+        except Exception as e:
+            rec.update(verdict="inconclusive", reason="cannot read the variant order of %s: %r" % (spec["required"][0], e), wall_s=0)
+            return rec
     queries = 0; solver_s = 0.0; failed = []; detail = {"sites": []}; encoded = []
     verdict = "discharged"; reason = None; witnessed = True
     for site in spec["sites"]:
@@ -296,6 +308,7 @@ def run_guard(funcs, o, tier):
             continue
         for f in bodies:
             ex = BVX.Exec(funcs, lenient=True, subject=(spec["subject"], "subj"), target=site.get("target"))
+            ex.subject_result = bool(spec.get("subject_result"))
             try:
                 nargs = len(re.findall(r"_\d+: ", f.params or ""))
                 outs = ex.run(f, [BVX.OPAQUE("arg") for _ in range(nargs)])
@@ -311,8 +324,47 @@ def run_guard(funcs, o, tier):
             if mode == "closure_true":
                 pass_paths = [BVX.conj(cs + [v["e"]]) for cs, v in outs if v["k"] == "bool"]
                 pass_paths += [BVX.conj(cs) for cs, v in outs if v["k"] == "opaque"]
+            elif spec.get("subject_result"):
+                # every arrival at the target: the last subject call before it failed with the tolerated variant
+                pass_paths = []
+                for cs, _, last in ex.hits:
+                    if last is None:
+                        pass_paths.append(("true", None)); continue
+                    pass_paths.append((BVX.conj(cs), last))
+                head = ["(set-logic QF_BV)"] + ["(declare-const subj_tag_%d (_ BitVec 64))\n(declare-const subj_%d (_ BitVec 64))" % (k_, k_) for k_ in range(1, ex.n_subjects + 1)]
+                sd = {"body": f.name, "mode": mode, "arrivals_at_target": len(pass_paths)}
+                if not pass_paths:
+                    verdict = "inconclusive" if verdict != "violated" else verdict
+                    reason = "no path of %s reaches the target" % f.name
+                    detail["sites"].append(sd); continue
+                bad_any = False; wit_any = False
+                for cond, last in pass_paths:
+                    if last is None:
+                        bad_any = True; continue
+                    reqlit = BVX.lit(req_index, 64)
+                    # tolerated only on the Err side with the required variant
+                    q_bad = "\n".join(head + ["(assert %s)" % cond, "(assert (not (and (= subj_tag_%d %s) (= subj_%d %s))))" % (last, BVX.lit(1, 64), last, reqlit), "(check-sat)"])
+                    q_wit = "\n".join(head + ["(assert %s)" % cond, "(assert (and (= subj_tag_%d %s) (= subj_%d %s)))" % (last, BVX.lit(1, 64), last, reqlit), "(check-sat)"])
+                    r1, _, d1 = _smt(q_bad, "z3"); r2, _, d2 = _smt(q_bad, "cvc5"); rw, _, d3 = _smt(q_wit, "z3")
+                    queries += 3; solver_s += d1 + d2 + d3
+                    if r1 != r2 or r1 not in ("sat", "unsat"):
+                        verdict = "inconclusive" if verdict != "violated" else verdict
+                        reason = "solvers disagree / error on %s: %s / %s" % (f.name, r1, r2)
+                    elif r1 == "sat":
+                        bad_any = True
+                    if rw == "sat":
+                        wit_any = True
+                sd.update(violated=bad_any, witness=wit_any)
+                if not wit_any:
+                    witnessed = False
+                if bad_any:
+                    verdict = "violated"
+                    failed.append({"class": "mirbv", "file": f.name, "line": f.line,
+                                   "desc": "%s: %s is reached after %s failed with an error other than %s::%s (or without a failure)" % (f.name.split("::")[-1], site.get("target"), spec["subject"], spec["required"][0], spec["required"][1])})
+                detail["sites"].append(sd)
+                continue
             else:
-                pass_paths = [BVX.conj(cs) for cs, _ in ex.hits]
+                pass_paths = [BVX.conj(cs) for cs, _, _ in ex.hits]
             consts = set(ex.consts) | {req}
             head = ["(set-logic QF_BV)", "(declare-const subj (_ BitVec 64))"] + ["(declare-const %s (_ BitVec 64))" % c for c in sorted(consts)]
             if len(consts) > 1:
